@@ -733,6 +733,17 @@ func Dump(v reflect.Value, tag string) any {
 	return dump(v, tag, 0)
 }
 
+// camel turns a TL-B constructor name into the CamelCase form tools/tlb2json.py uses (addr_std -> AddrStd).
+func camel(s string) string {
+	var sb strings.Builder
+	for _, p := range strings.Split(s, "_") {
+		if p != "" {
+			sb.WriteString(strings.ToUpper(p[:1]) + p[1:])
+		}
+	}
+	return sb.String()
+}
+
 // SchemaShape makes Dump follow the field lists of block.tlb where the Go representation folds fields:
 // addr_extern (a bare *BitString in Go) becomes [len, bits]; Anycast{Depth, RewritePfx uint32} becomes [depth, bits].
 var SchemaShape bool
@@ -750,6 +761,12 @@ func dump(v reflect.Value, tag string, depth int) any {
 				s = "0" + s
 			}
 			return []any{strconv.Itoa(int(x.Depth)), s}
+		case tlb.AccountStatus:
+			return M{"c": camel("acc_state_" + string(x)), "v": []any{}}
+		case tlb.AccStatusChange:
+			return M{"c": camel(string(x)), "v": []any{}}
+		case tlb.ComputeSkipReason:
+			return M{"c": camel(string(x)), "v": []any{}}
 		case tlb.MsgAddress:
 			if x.SumType == "AddrExtern" && x.AddrExtern != nil {
 				bs := x.AddrExtern.BinaryString()
